@@ -133,12 +133,12 @@ ADDENDA = {
  'C08': ' TCP clause: a session aborted with RST followed by a new session from the same source port (after the aborted connection\'s handler thread ended); bursts of connections reset before accept; a write request cut at every byte offset followed by end-of-stream; a connection neither answered nor closed within 15 s is watched for another 45 s (late close = violation). Connected clause: Forward Open with 0..3 hops then connected requests under a repeating watchdog the code under test cannot swallow.',
  'C09': ' Register Session is issued under the schedule too (dedicated sweep scenario and one in four drawn cases); both engines require pairwise distinct session handles of simultaneously open sessions; one tag whose element ranges are each written by one session only; produce side line-traced (reader preempted while encoding); unparsable requests from one session while others run (two-preemption sweep, hostile sessions in engine B); a same-source-port pair from two loopback addresses.',
  'C13': ' Stall clause: the relay delivers a reply up to byte k, stays silent past the client timeout, then delivers the rest; the connector is driven directly (with conn: harvest(issue(...))) and a later transaction must never yield the delayed reply. poll.run over several cycles. One wide exchange (12 reads, all in flight; 21 in the thorough tier) under every contiguous run of wholly lost replies.',
- 'C14': ' Connected sequence counts cross 0x8000/0xFFFF; port-less connection paths (reference session and pylogix Micro800); a second connected session dropped abruptly; raw out-of-range requests must carry 0xFF/0x2105; an exception raised inside pylogix is a failure to interoperate.',
+ 'C14': ' Tags with dotted names sharing leading components and unknown siblings. Connected sequence counts cross 0x8000/0xFFFF; port-less connection paths (reference session and pylogix Micro800); a second connected session dropped abruptly; raw out-of-range requests must carry 0xFF/0x2105; an exception raised inside pylogix is a failure to interoperate.',
  'C15': ' Stream clause: operation streams with per-operation route path text through connector.issue (frames captured, decoded by the reference codec); connector-level default route paths; configuration-file personalities (--config) and main(UCMM_class=...) in the CLI matrix.',
  'C16': ' Index expressions as index forms; stored None/False/0.0; pop(path, default) when only the leaf is absent.',
  'C18': ' Files are written in 1..3 consecutive logger sessions; a third of the plain histories use encoding=utf-8 for writing and loading, with non-ASCII comments heading files.',
- 'C19': ' Two-bank inputs hugging the gap between neighbouring banks; limit 0 (= none given); a poller clause drives poller_modbus over an in-process fake transport: every requested register reads back its value.',
- 'C20': ' Sessions clause: consecutive tnet_from sessions, earlier consumers stopping before all received data was consumed.',
+ 'C19': ' Two-bank inputs hugging the gap between neighbouring banks; limit 0 (= none given); a poller clause drives poller_modbus over an in-process fake transport (holding registers, and coils with pymodbus-encoded whole-byte responses): every requested register reads back its value.',
+ 'C20': ' Sessions clause: consecutive tnet_from sessions, earlier consumers stopping before all received data was consumed; ignore= with 0..3 ignorable symbols between messages. Round trip of values holding one object twice.',
 }
 for _k, _v in ADDENDA.items():
     CHECKS[_k]['text'] += _v
